@@ -174,9 +174,15 @@ def file_leg(ctx):
         "imports_empty_lib.scm": b"(import (emptylib))\n1\n",
         "imports_trunc_lib.scm": b"(import (trunclib))\n1\n",
         "badlib.sld": b"(define-library (badlib) (export a) (begin (define a \"\xff\")))",
+        # library files that define macros named like the bundled derived forms; one of them fails to load (unbound export)
+        "imports_macro_lib.scm": b"(import (scheme base) (maclib))\n(cond (#f 0) (else 41))\n",
+        "imports_macro_lib2.scm": b"(import (scheme base) (maclib two))\n1\n",
+        "maclib.sld": b"(define-library (maclib) (import (scheme base)) (export a) (begin (define-syntax cond (syntax-rules () ((cond c ...) 'hijacked))) (define-syntax and (syntax-rules () ((and c ...) 'hijacked))) (define a (cond (#t 1)))))",
+        "maclib/two.sld": b"(define-syntax let (syntax-rules () ((let b ...) 'hijacked)))\n(define-library (maclib two) (import (scheme base)) (export nothing-defined) (begin (define-syntax or (syntax-rules () ((or c ...) 'hijacked))) (define b 2)))",
         "emptylib.sld": b"",
         "trunclib.sld": b"(define-library (trunclib) (export a) (begin (define a 1)",
     }
+    os.makedirs(os.path.join(d, "maclib"), exist_ok=True)
     for fn, data in cases.items():
         open(os.path.join(d, fn), "wb").write(data)
     os.makedirs(os.path.join(d, "dirlib.sld"), exist_ok=True)
@@ -185,7 +191,9 @@ def file_leg(ctx):
     jobs = []
     for fn in progs:
         jobs.append({"id": "file-" + fn, "interps": [{"stdlib": False, "natives": False}],
-                     "steps": [{"file": os.path.join(d, fn)}, {"src": "(import (scheme base))"}, {"src": "(+ 40 1)"}], "fuel": 20000})
+                     "steps": [{"file": os.path.join(d, fn)}, {"src": "(import (scheme base))"}, {"src": "(+ 40 1)"},
+                               # the derived forms still work on this interpreter, on a second one, and new interpreters can be created
+                               {"new": {"stdlib": True}}, {"it": 1, "src": "(cond ((and #f 1) 0) (else (let ((q (or #f 41))) q)))"}], "fuel": 20000})
     recs = core.run_jobs(jobs, "dev", shards=4, timeout=120, tag="c07f")
     for job, fn, rec in zip(jobs, progs, recs):
         ctx.evaluations += 1
@@ -200,6 +208,11 @@ def file_leg(ctx):
             ctx.violation(core.panic_desc(v, {"what": "panic on program/library file", "input": fn, "leg": "file-api"}), {"job": job, "rec": rec})
             continue
         # still usable: a later form evaluates (the import may be refused after the first non-import form; then (+ 40 1) is unbound - both fine, no panic)
+        if len(st) >= 5:
+            kn, vn = core.outcome(st[3]); ks, vs = core.outcome(st[4])
+            if kn != "ok" or ks != "ok" or vs != {"i": 41}:
+                ctx.violation({"kind": "corrupt", "what": "after a program/library file was evaluated a new interpreter cannot be created or its derived forms are damaged", "input": fn,
+                               "new_interpreter": st[3], "sanity": st[4], "leg": "file-api", "dedupe": "file-corrupt"}, {"job": job, "rec": rec})
         for s in st[1:]:
             k2, v2 = core.outcome(s)
             if k2 == "panic":
